@@ -43,12 +43,12 @@ PLAN = {
  "C09s_m1": [("C11", ["--only", "zz"])], "C09s_m2": [("C11", ["--only", "zz"])], "C09s_m3": [("C09", ["--only", "jq255s"])], "C09s_m4": [("C09", ["--only", "gls254"])],
  "C17_m1": [("C17", ["--only", "step"])],
  "C01r_m1": [("C01", [])], "C01r_m2": [("C01", ["--only", "gf25519"])], "C01r_m3": [("C01", ["--only", "gfsecp256k1"])],
- "C01r_m4": [("C01", ["--only", "gf448"]), ("C14", [])],
- "C04r_m1": [("C11", ["--only", "zz"])], "C04r_m2": [("C03", [])], "C04r_m3": [("C11", [])], "C04r_m4": [("C03", [])],
+ "C01r_m4": [("C01", ["--only", "gf448"])],
+ "C04r_m1": [("C11", ["--only", "zz"])], "C04r_m2": [("C03", [])], "C04r_m3": [("C11", ["--only", "secp256k1.split_theta"])], "C04r_m4": [("C03", [])],
  "C05r_m1": [("C05", ["--only", "scsecp256k1"]), ("C05", ["--only", "sc25519"])], "C05r_m2": [("C05", ["--only", "gf448"])],
  "C05r_m3": [("C05", ["--only", "gf25519"])], "C05r_m4": [("C05", ["--only", "gfsecp256k1"])],
- "C12r_m1": [("C01", ["--only", "gfsecp256k1"]), ("C12", [])], "C12r_m2": [("C12", [])], "C12r_m3": [("C12", [])], "C12r_m4": [("C12", ["--only", "batch"])],
- "C15r_m1": [("C06", ["--only", "p256"])], "C15r_m2": [("C10", [])], "C15r_m3": [("C06", ["--only", "ed448"])], "C15r_m4": [("C11", [])],
+ "C12r_m1": [("C01", ["--only", "gfsecp256k1"]), ("C12", [])], "C12r_m2": [("C12", ["--only", "lin"])], "C12r_m3": [("C12", ["--only", "lin"])], "C12r_m4": [("C12", ["--only", "batch"])],
+ "C15r_m1": [("C06", ["--only", "p256"])], "C15r_m2": [("C10", [])], "C15r_m3": [("C06", ["--only", "ed448"])], "C15r_m4": [("C11", ["--only", "secp256k1.split_theta"])],
  "C16r_m1": [("C16", [])], "C16r_m2": [("C16", [])], "C16r_m3": [("C16", [])], "C16r_m4": [("C16", [])],
  "C18r_m1": [("C11", ["--only", "zz"])], "C18r_m2": [("C01", ["--only", "gf25519"])], "C18r_m3": [("C01", ["--only", "gfsecp256k1"])],
  "C18r_m4": [("C06", ["--only", "ed448"])],
